@@ -837,7 +837,10 @@ Error BaseBuilder::serialize_to(BaseEmitter* dst) {
         op_ext = op_array + 3;
       }
 
-      err = dst->_emit(node->inst_id(), op[0], op[1], op[2], op_ext);
+      // Operands that are not part of the instruction must be seen as none - the content of the operand storage
+      // beyond `op_count()` is unspecified (operands dropped by `set_op_count()`, nodes created by `new_inst_node()`).
+      const Operand_& none = EmitterUtils::no_ext[0];
+      err = dst->_emit(node->inst_id(), op_count > 0u ? op[0] : none, op_count > 1u ? op[1] : none, op_count > 2u ? op[2] : none, op_ext);
     }
     else if (node_->is_label()) {
       if (node_->is_const_pool()) {
